@@ -24,9 +24,10 @@ import lib
 import wire
 from props.common import PALETTE
 from props import widthenv
+from extract_more_heap import dict_mutators
 
 PROP = "C13"
-MODULES = ["Curtsies.Properties.C13"]
+MODULES = ["Curtsies.Properties.C13", "Curtsies.Properties.C13Table"]
 EXTRA_MODULES = []
 RULE = ("programs: (a) scenario enumeration: every (aliasing operation A, observation set filled before A, follow-up "
         "operation B) over fixed operands, with all four observations on every value afterwards; (b) seeded random "
@@ -40,6 +41,14 @@ ASSUMPTIONS = ["texts contain no ESC (fmtstr(str) would parse them; C17) and no 
                "slices runs with negative offsets, which the value-level splice model does not cover)",
                "the garbage objects an operation allocates and drops (temporary lists, intermediate FmtStr of *, fmtstr's "
                "from_str object) are modelled but cannot be observed on the real side; only pool values are compared"]
+LEVEL_NOTE = ("trusted: Lean kernel + propext/Classical.choice/Quot.sound, the hand-written heap model (a transcription of the "
+              "allocation/aliasing/memo behaviour of formatstring.py, tied to /repo only by the per-run correspondence: object "
+              "identity of FmtStr / run list / run / attribute-dict objects, memo flags, runs), harness/extract_more_heap.py, the wire "
+              "codec. The frame and cache theorems are proofs about that model. The GUARDS clause (item assignment and attribute-dict "
+              "mutation raise) is carried by the tie and the guard oracle on the real code plus the regenerated table theorem "
+              "C13_guards_table; the Lean guard theorems only record the model's reading. Known finding D24 is excluded by an "
+              "explicit hypothesis and witnessed in the model. splice with end < start and lazily consumed generators are outside "
+              "the model and judged by the oracle alone")
 TRUSTED = ["C13: the heap model's notion of object identity/aliasing (lean/Curtsies/Model/Heap.lean), validated per run by "
            "comparing `is`-structure of FmtStr objects, run lists and run objects; value-level data the model takes as "
            "given (regex split positions, str-method results, shared_atts, ChunkSplitter pieces) come from the real run"]
@@ -74,20 +83,31 @@ def fresh_color_str(s, atts_items):
     return r
 
 
+def _enc_key(key):
+    try:
+        return "-" if not key else ";".join(wire.enc_text(s) + "|" + wire.enc_atts(dict(a)) for s, a in key)
+    except wire.Unencodable:
+        # attributes outside the model's domain (only reachable when a guard failed): never equal to a model reply
+        return "?unencodable"
+
+
+def _try(fn):
+    try:
+        return fn()
+    except Exception as e:  # noqa: BLE001 - a view that raises is itself the view
+        return "E:" + type(e).__name__
+
+
 def view_of_key(key):
-    """all views of a value, computed by the real code on brand-new objects"""
+    """all views of a value, computed by the real code on brand-new objects (total: a view that raises is recorded
+    as the exception kind)"""
     v = _view_cache.get(key)
     if v is None:
         g = FmtStr(*(Chunk(s, dict(a)) for s, a in key))
-        try:
-            w = g.width
-        except ValueError:
-            w = "E:ValueError"
-        st = str(g)
-        v = dict(s=g.s, len=len(g), width=w, str=st, repr=repr(g),
+        st = _try(lambda: str(g))
+        v = dict(s=_try(lambda: g.s), len=_try(lambda: len(g)), width=_try(lambda: g.width), str=st, repr=_try(lambda: repr(g)),
                  cells=tuple((ch, a) for s, a in key for ch in s),
-                 enc=("-" if not key else ";".join(wire.enc_text(s) + "|" + wire.enc_atts(dict(a)) for s, a in key)),
-                 enc_render=wire.enc_text(st))
+                 enc=_enc_key(key), enc_render=wire.enc_text(st))
         if len(_view_cache) > 200000:
             _view_cache.clear()
         _view_cache[key] = v
@@ -102,8 +122,8 @@ def entry(f, key, v):
     cs = f.chunks
     memo = "".join("0" if x is None else "1" for x in (f._unicode, f._len, f._s, f._width))
     cmemo = "".join("1" if "color_str" in c.__dict__ else "0" for c in cs)
-    return "%d:%d:%s:%s:%s!%s!%s!%d" % (id(f), id(cs), ".".join(str(id(c)) for c in cs), memo, cmemo,
-                                        v["enc"], v["enc_render"], v["len"])
+    return "%d:%d:%s:%s:%s:%s!%s!%s!%s" % (id(f), id(cs), ".".join(str(id(c)) for c in cs), memo, cmemo,
+                                           ".".join(str(id(c.atts)) for c in cs), v["enc"], v["enc_render"], v["len"])
 
 
 # ------------------------------------------------------------------------------------------------------------
@@ -155,7 +175,7 @@ def deleg_data(s, name, args):
     except Exception as e:  # noqa: BLE001
         return wire.exc_kind(e)
     if isinstance(r, bytes):
-        return "bytes"             # fmtstr(bytes, **self.shared_atts): shared_atts is evaluated, then "Bad Args"
+        return "N"                 # bytes are returned unchanged (not wrapped)
     if isinstance(r, str):
         return "L" + wire.enc_tf(r)
     if isinstance(r, list):
@@ -163,9 +183,10 @@ def deleg_data(s, name, args):
     return "N"
 
 
-def exec_step(d, pool):
+def exec_step(d, pool, gens=None):
     """-> (model tokens, thunk running the real operation and returning (kind, value))
-    kind: 'refs' (list of FmtStr), 'text', 'int', 'none'"""
+    kind: 'refs' (list of FmtStr), 'text', 'int', 'bool', 'opaque', 'none'.  `gens`: open
+    width_aware_splitlines generators (oracle-only programs)."""
     op = d["op"]
     f = pool[d["a"]] if "a" in d else None
     a = d.get("a")
@@ -183,6 +204,26 @@ def exec_step(d, pool):
         return ["raddstr", str(a), wire.enc_tf(d["t"])], one(lambda: d["t"] + f)
     if op == "mul":
         return ["mul", str(a), str(d["n"])], one(lambda: f * d["n"])
+    if op == "rmul":                       # __rmul__ = __mul__
+        return ["mul", str(a), str(d["n"])], one(lambda: d["n"] * f)
+    if op == "eq":
+        return ["eq", str(a), enc_arg(d["other"])], (lambda: ("bool", f == arg(d["other"])))
+    if op == "hash":
+        return ["hash", str(a)], (lambda: ("opaque", hash(f)))
+    if op == "wsplit_open":                # oracle-only: the generator stays open across later steps
+        def run():
+            gens.append(f.width_aware_splitlines(d["cols"]))
+            return ("opaque", None)
+        return ["oracle-only"], run
+    if op == "wsplit_next":
+        def run():
+            if not gens:
+                return ("opaque", None)
+            try:
+                return ("refs", [next(gens[d["g"] % len(gens)])])
+            except StopIteration:
+                return ("opaque", None)
+        return ["oracle-only"], run
     if op == "join":
         return (["join", str(a)] + [enc_arg(x) for x in d["items"]]), one(lambda: f.join([arg(x) for x in d["items"]]))
     if op == "getint":
@@ -207,8 +248,11 @@ def exec_step(d, pool):
     if op == "copy":
         return ["copy", str(a)], one(lambda: f.copy())
     if op == "split":
-        bs = split_bounds(raw_s(f), d["sep"], d["regex"])
-        return ["slices", str(a), enc_bounds(bs)], (lambda: ("refs", f.split(d["sep"], regex=d["regex"])))
+        if d["sep"] == "" and not d["regex"]:
+            bt = "E:ValueError"            # rejected after `s = self.s`
+        else:
+            bt = enc_bounds(split_bounds(raw_s(f), d["sep"], d["regex"]))
+        return ["slices", str(a), bt], (lambda: ("refs", f.split(d["sep"], regex=d["regex"])))
     if op == "splitlines":
         bs = splitlines_bounds(raw_s(f), d["keepends"])
         return ["slices", str(a), enc_bounds(bs)], (lambda: ("refs", f.splitlines(d["keepends"])))
@@ -229,7 +273,7 @@ def exec_step(d, pool):
             lines = list(g.width_aware_splitlines(d["cols"]))
         except Exception:  # noqa: BLE001
             lines = []
-        toks = [wire.enc_fmt(l) + "~" + ("1" if wcswidth(raw_s(l)) == d["cols"] else "0") for l in lines]
+        toks = [_enc_key(key_of(l)) + "~" + ("1" if wcswidth(raw_s(l)) == d["cols"] else "0") for l in lines]
 
         def run():
             # the generator is stepped by hand: each yielded line is looked at BEFORE the generator resumes
@@ -250,10 +294,7 @@ def exec_step(d, pool):
             if isinstance(r, list):
                 return ("refs", list(r))
             return ("refs", [])
-        data, sh = deleg_data(raw_s(f), d["name"], args), shared_token(f)
-        if data == "bytes":
-            data = sh if sh.startswith("E:") else "E:ValueError"
-        return ["deleg", str(a), data, sh], run
+        return ["deleg", str(a), deleg_data(raw_s(f), d["name"], args), shared_token(f)], run
     if op == "str":
         return ["str", str(a)], (lambda: ("text", str(f)))
     if op == "len":
@@ -294,8 +335,12 @@ def run_program(case, collect=None):
     pool, first, findings, steps_out = [], [], [], []
     stats = dict(aliasing_after_memo=False, ops=[])
     memo_filled = False
+    stop = False
+    gens = []
     for i, d in enumerate(case["steps"]):
-        toks, thunk = exec_step(d, pool)
+        if stop:
+            break
+        toks, thunk = exec_step(d, pool, gens)
         if collect is not None:
             collect.append(toks)
         before_ids = {id(p) for p in pool}
@@ -316,12 +361,21 @@ def run_program(case, collect=None):
                 res = "t" + wire.enc_text(val)
             elif kind == "int":
                 res = "i%d" % val
+            elif kind == "bool":
+                res = "b1" if val else "b0"
+                want = view_of_key(key_of(pool[d["a"]]))["str"] == (view_of_key(key_of(pool[d["other"][1]]))["str"]
+                                                                     if d["other"][0] == "p" else d["other"][1])
+                if val != want:
+                    findings.append(("step %d: == returned %r, comparing fresh terminal strings gives %r" % (i, val, want), d))
+            elif kind == "opaque":
+                res = "o"
             else:
                 res = "returned"
                 if d["op"] in ("setitem", "attsmut"):
                     findings.append(("step %d: %s did not raise: %r" % (i, d["op"], d), d))
-        except wire.Unencodable:
-            raise
+                    # the value may now be outside what the model can express: report and stop this program here
+                    # (the replayed witness of the known finding D24 goes on, its arguments stay inside the model)
+                    stop = case.get("kind") != "witness"
         except Exception as e:  # noqa: BLE001
             res = wire.exc_kind(e)
             kind, val = "raised", None
@@ -367,11 +421,8 @@ def run_program(case, collect=None):
     # final sweep through the public API: memoised == first snapshot == FmtStr(*f.chunks)
     for k, p in enumerate(pool):
         def pub(x):
-            try:
-                w = x.width
-            except ValueError:
-                w = "E:ValueError"
-            return (x.s, len(x), w, str(x), repr(x), tuple(wire.cells(x)))
+            return (_try(lambda: x.s), _try(lambda: len(x)), _try(lambda: x.width), _try(lambda: str(x)), _try(lambda: repr(x)),
+                    tuple((ch, tuple(sorted(c.atts.items()))) for c in x.chunks for ch in c.s))
         got = pub(p)
         if got != first[k]:
             findings.append(("end: public views of pool[%d] are %r, first snapshot %r" % (k, got, first[k]), None))
@@ -389,16 +440,21 @@ def run_program(case, collect=None):
 def canon(reply):
     if not reply.startswith("ok "):
         return reply
-    fm, lm, cm = {}, {}, {}
+    fm, lm, cm, am = {}, {}, {}, {}
     num = lambda m, x: m.setdefault(x, len(m))
     out = []
     for step in reply[3:].split(" / "):
         head, _, ents = step.partition(" # ")
         es = []
         for e in (ents.split(" ") if ents else []):
-            ids, enc, rend, ln = e.split("!")
-            fid, lid, cids, memo, cmemo = ids.split(":")
-            es.append((num(fm, fid), num(lm, lid), tuple(num(cm, c) for c in cids.split(".")) if cids else (), memo, cmemo, enc, rend, ln))
+            try:
+                ids, enc, rend, ln = e.split("!")
+                fid, lid, cids, memo, cmemo, aids = ids.split(":")
+            except ValueError:
+                es.append(e)
+                continue
+            es.append((num(fm, fid), num(lm, lid), tuple(num(cm, c) for c in cids.split(".")) if cids else (), memo, cmemo,
+                       tuple(num(am, c) for c in aids.split(".")) if aids else (), enc, rend, ln))
         out.append((head.strip(), tuple(es)))
     return tuple(out)
 
@@ -433,27 +489,6 @@ DELEG = [("upper", []), ("lower", []), ("title", []), ("strip", []), ("lstrip", 
          ("expandtabs", [2]), ("count", ["a"]), ("encode", []), ("rstrip", []), ("casefold", [])]
 
 
-def dict_mutators():
-    """(name, args) pairs of dir(dict) that change a plain dict - found by trying, at run time"""
-    ARGS = [[], ["bold"], ["fg"], ["zz"], ["bold", False], ["zz", 1], [{"bold": False}], [[["italic", True]]], ["bold", None]]
-    samples = [{}, {"fg": 31, "bold": True}]
-    found = []
-    for name in dir(dict):
-        for a in ARGS:
-            hit = False
-            for s in samples:
-                d = dict(s)
-                try:
-                    getattr(d, name)(*a)
-                except BaseException:  # noqa: BLE001
-                    pass
-                if d != s:
-                    hit = True
-            if hit:
-                found.append((name, a))
-    return found
-
-
 def pick_step(r, pool, muts):
     """random step descriptor over the current (real) pool; only raw run data is read"""
     n = len(pool)
@@ -468,7 +503,7 @@ def pick_step(r, pool, muts):
     idx = lambda: r.choice([None] + list(range(-L - 1, L + 2)))
     kind = r.choice(["obs"] * 9 + ["add", "add", "addstr", "raddstr", "mul", "join", "join", "getint", "getslice", "getslice",
                                    "getslice", "splice", "splice", "splice", "append", "append", "cwna", "rewrap", "nwar",
-                                   "cwns", "copy", "split", "split", "splitlines", "ljust", "rjust", "wslice", "wslice",
+                                   "cwns", "copy", "split", "split", "splitlines", "rmul", "eq", "eq", "hash", "ljust", "rjust", "wslice", "wslice",
                                    "wsliceint", "wsplit", "wsplit", "deleg", "deleg", "setitem", "attsmut", "lit", "fmtstr",
                                    "colorstr"])
     if kind == "obs":
@@ -485,6 +520,17 @@ def pick_step(r, pool, muts):
         if L > 8:
             a = r.choice(small) if small else a
         return dict(op="mul", a=a, n=r.choice([-1, 0, 1, 2, 2, 3]))
+    if kind == "rmul":
+        if L > 8:
+            a = r.choice(small) if small else a
+        return dict(op="rmul", a=a, n=r.choice([0, 1, 2, 3]))
+    if kind == "eq":
+        other = ["p", r.randrange(n)] if r.random() < 0.7 else ["s", rtext(r, 0, 3)]
+        if r.random() < 0.2:
+            other = ["p", a]
+        return dict(op="eq", a=a, other=other)
+    if kind == "hash":
+        return dict(op="hash", a=a)
     if kind == "join":
         return dict(op="join", a=a, items=[rarg(r, pool, small) for _ in range(r.choice([0, 1, 2, 2, 3]))])
     if kind == "getint":
@@ -514,7 +560,7 @@ def pick_step(r, pool, muts):
     if kind == "copy":
         return dict(op="copy", a=a)
     if kind == "split":
-        sep = r.choice([None, None, "a", " ", "b", "ab", WIDE])
+        sep = r.choice([None, None, "a", " ", "b", "ab", WIDE, ""])
         if r.random() < 0.15:
             return dict(op="split", a=a, sep=r.choice(["a|b", "[ab]+", " ?a"]), regex=True)
         return dict(op="split", a=a, sep=sep, regex=False)
@@ -545,28 +591,47 @@ def pick_step(r, pool, muts):
     raise KeyError(kind)
 
 
-def gen_random(r, nsteps, muts):
-    """generate by running: each step is chosen looking at the real pool so far"""
-    steps, pool = [], []
+def gen_random(r, nsteps, muts, oracle_only=False):
+    """generate by running: each step is chosen looking at the real pool so far.  oracle_only: also calls the model
+    does not cover (splice with end < start, a width_aware_splitlines generator consumed lazily between other
+    operations); such programs are judged by the oracle alone"""
+    steps, pool, gens = [], [], []
     for d in (dict(op="lit", chunks=rchunks(r)), dict(op="fmtstr", t=rtext(r, 1, 4), atts=ratts(r)),
               dict(op="lit", chunks=[(rtext(r, 1, 2), dict(PALETTE[1])), (rtext(r, 1, 2), dict(PALETTE[2]))])):
         steps.append(d)
     k = 0
-    while len(steps) < nsteps:
+    broken = False
+    while len(steps) < nsteps and not broken:
         # bring the real pool up to date
         while k < len(steps):
-            _, thunk = exec_step(steps[k], pool)
+            _, thunk = exec_step(steps[k], pool, gens)
             try:
                 out = thunk()
                 if out[0] == "refs":
                     pool.extend(out[1])
+                elif out[0] == "none":
+                    broken = True          # a guard did not raise: run_program reports it and stops there
             except Exception:  # noqa: BLE001
                 pass
             k += 1
-        if len(pool) > 40:
+        if len(pool) > 40 or broken:
             break
-        steps.append(pick_step(r, pool, muts))
-    return dict(kind="random", steps=steps)
+        steps.append(pick_extra(r, pool) if oracle_only and r.random() < 0.3 else pick_step(r, pool, muts))
+    return dict(kind="oracle-only" if oracle_only else "random", steps=steps)
+
+
+def pick_extra(r, pool):
+    n = len(pool)
+    a = r.randrange(n)
+    L = sum(len(c.s) for c in pool[a].chunks)
+    k = r.choice(["splice_rev", "wsplit_open", "wsplit_next", "wsplit_next", "wsplit_next"])
+    if k == "splice_rev":
+        start = r.randint(1, L + 1)
+        return dict(op="splice", a=a, new=["s", rtext(r, 0, 2, rare=0.0)] if r.random() < 0.6 else ["p", r.randrange(n)],
+                    start=start, end=r.randint(0, start - 1))
+    if k == "wsplit_open":
+        return dict(op="wsplit_open", a=a, cols=r.choice([2, 2, 3, 4]))
+    return dict(op="wsplit_next", g=r.randint(0, 3))
 
 
 # aliasing operations A for the scenario enumeration: operands pool[0] (two runs 'ab' red, 'c' bold-on-blue),
@@ -609,9 +674,9 @@ FOLLOW = [
 
 def run_quiet(steps):
     """the real pool after running the descriptors"""
-    pool = []
+    pool, gens = [], []
     for d in steps:
-        _, thunk = exec_step(d, pool)
+        _, thunk = exec_step(d, pool, gens)
         try:
             out = thunk()
             if out[0] == "refs":
@@ -663,7 +728,7 @@ def make_line(case):
     return "heap %s / %s" % (env, " / ".join(" ".join(t) for t in toks))
 
 
-def mk_cases(ctx):
+def mk_cases(ctx, nprog=None):
     muts_all = dict_mutators()
     open_ids = {e["id"] for e in lib.known_findings(PROP) if e.get("status") == "open"}
     muts = [m for m in muts_all if not (m[0] == "__init__" and KNOWN_INIT_ID in open_ids)]
@@ -671,12 +736,15 @@ def mk_cases(ctx):
     ctx.exhaustive.append("scenarios: %d aliasing operations x %d observation sets before x %d follow-ups = %d programs"
                           % (len(ALIASING), len(cases) // (len(ALIASING) * len(FOLLOW)), len(FOLLOW), len(cases)))
     r = ctx.rng
-    nprog, maxsteps = (30000, 40) if ctx.thorough else (1500, 15)
-    for _ in range(nprog):
+    n, maxsteps = (30000, 40) if ctx.thorough else (1500, 15)
+    n = nprog or n
+    for _ in range(n):
         cases.append(gen_random(r, r.randint(6, maxsteps), muts))
     for c in cases:
         c["line"] = make_line(c)
-    return cases, muts_all
+    # calls the model does not cover: judged by the oracle alone
+    oracle_cases = [gen_random(r, r.randint(6, maxsteps), muts, oracle_only=True) for _ in range(n // 5)]
+    return cases, oracle_cases, muts_all
 
 
 # ------------------------------------------------------------------------------------------------------------
@@ -688,7 +756,11 @@ def guard_cases(muts):
     for chunks in ([("a", {})], [("ab", {"fg": 31, "bold": True})], [("a", {"bold": True}), ("b", {"bg": 44})]):
         for filled in (False, True):
             out.append(dict(kind="guard", g="setitem", chunks=chunks, filled=filled, i=0, x="x"))
+            out.append(dict(kind="guard", g="setslice", chunks=chunks, filled=filled))
+            out.append(dict(kind="guard", g="delitem", chunks=chunks, filled=filled))
             for k in range(len(chunks)):
+                out.append(dict(kind="guard", g="chunk_atts", chunks=chunks, filled=filled, k=k))
+                out.append(dict(kind="guard", g="chunk_s", chunks=chunks, filled=filled, k=k))
                 for name, args in muts:
                     out.append(dict(kind="guard", g="attsmut", chunks=chunks, filled=filled, k=k, name=name, args=args))
     return out
@@ -703,6 +775,14 @@ def guard_oracle(c):
     try:
         if c["g"] == "setitem":
             f[c["i"]] = c["x"]
+        elif c["g"] == "setslice":
+            f[0:1] = "x"
+        elif c["g"] == "delitem":
+            del f[0]
+        elif c["g"] == "chunk_atts":
+            f.chunks[c["k"]].atts = {}
+        elif c["g"] == "chunk_s":
+            f.chunks[c["k"]].s = "x"
         else:
             getattr(f.chunks[c["k"]].atts, c["name"])(*c["args"])
         raised = False
@@ -711,7 +791,7 @@ def guard_oracle(c):
     after_fresh, after = fresh(), str(f)
     if not raised:
         return "%s%s did not raise (attributes now %r; str(f) %s a fresh rendering)" % (
-            c["g"], "" if c["g"] == "setitem" else " %s%r" % (c["name"], tuple(c["args"])),
+            c["g"], "" if c["g"] != "attsmut" else " %s%r" % (c["name"], tuple(c["args"])),
             [dict(x.atts) for x in f.chunks], "==" if after == after_fresh else "!=")
     if after != before or after_fresh != before:
         return "%s raised but str(f) changed: %r -> %r (fresh %r)" % (c["g"], before, after, after_fresh)
@@ -740,7 +820,7 @@ def footprint(case, what):
 # ------------------------------------------------------------------------------------------------------------
 
 def check(ctx):
-    cases, muts_all = mk_cases(ctx)
+    cases, oracle_cases, muts_all = mk_cases(ctx)
     stash = {}
 
     def impl(c):
@@ -757,6 +837,15 @@ def check(ctx):
             ctx.dist["op:" + o] += 1
         for what, d in findings[:3]:
             ctx.violation(what, small, footprint(d, what) if d else None)
+    for c in oracle_cases:
+        _, findings, stats = run_program(c)
+        small = dict(kind=c["kind"], steps=c["steps"])
+        ctx.count(small, nontrivial=stats["aliasing_after_memo"], tag=c["kind"])
+        for o in stats["ops"]:
+            ctx.dist["op:" + o] += 1
+        for what, d in findings[:3]:
+            ctx.violation(what, small, footprint(d, what) if d else None)
+    ctx.exhaustive.append("oracle-only programs (splice with end < start, lazily consumed width_aware_splitlines): %d" % len(oracle_cases))
     ctx.note("dict mutators found in dir(dict) at run time: %s" % sorted({m[0] for m in muts_all}))
     if KNOWN_INIT_ID in {e["id"] for e in lib.known_findings(PROP) if e.get("status") == "open"}:
         wcs = witness_cases()
@@ -766,10 +855,11 @@ def check(ctx):
         for c in wcs:
             ctx.count(dict(kind="witness", steps=c["steps"]), nontrivial=True, tag="witness")
     gcs = guard_cases(muts_all)
-    ctx.exhaustive.append("guards: f[0]='x' and %d (method, args) mutators x 3 values x memo filled/unfilled = %d cases" % (len(muts_all), len(gcs)))
+    ctx.exhaustive.append("guards: f[0]='x', f[0:1]='x', del f[0], c.atts={}, c.s='x' and %d (method, args) mutators x 3 values x memo "
+                          "filled/unfilled = %d cases" % (len(muts_all), len(gcs)))
     for c in gcs:
         w = guard_oracle(c)
-        ctx.count(c, nontrivial=True, tag="guard:" + (c.get("name") or "setitem"))
+        ctx.count(c, nontrivial=True, tag="guard:" + (c.get("name") or c["g"]))
         if w:
             ctx.violation(w, c, footprint(c, w))
 
@@ -778,8 +868,8 @@ def search(ctx):
     if ctx.thorough:
         return
     ctx.thorough = True
-    cases, muts_all = mk_cases(ctx)
-    for c in cases:
+    cases, oracle_cases, muts_all = mk_cases(ctx, nprog=4000)
+    for c in cases + oracle_cases:
         _, findings, _ = run_program(c)
         ctx.count(dict(steps=c["steps"]), tag="search")
         for what, d in findings[:3]:
